@@ -7,4 +7,6 @@ require (
 	pgregory.net/rapid v1.3.0
 )
 
+require github.com/lucasjones/reggen v0.0.0-20200904144131-37ba4fa293bb // indirect
+
 replace github.com/jsightapi/jsight-schema-go-library => /repo
